@@ -42,3 +42,16 @@ OBLIGATIONS['C07'] = [
        bounds='mechanism: all 2^64 values; parameter <= 64 bytes (IV <= 16); key attribute table: 8 symbolic attributes; advertised list <= 2 entries; allowed set <= 2 entries')
     for (op, n, fn) in [(0, 'encrypt', 'C_EncryptInit'), (1, 'decrypt', 'C_DecryptInit'), (2, 'sign', 'C_SignInit'), (3, 'verify', 'C_VerifyInit')]]
 META['C07'] = dict(outside='translation of the slots.mechanisms string into the advertised list (prepareSupportedMechanisms); OpenSSL', assumptions=[])
+
+# ----------------------------------------------------------------------------- C01
+ENTRY_REAL_NOP11 = ENTRY_REAL + ['slot_mgr/Slot.cpp']
+STORE_STUBS = {'_ZN5Token12createObjectEv': 'sink_token_createObject', '_ZN18SessionObjectStore12createObjectEmmb': 'sink_sos_createObject',
+               '_ZN5Token7decryptERK10ByteStringRS0_': 'sink_token_decrypt', '_ZN5Token7encryptERK10ByteStringRS0_': 'sink_token_encrypt'}
+_c01_ops = [(0, 'destroy', 'C_DestroyObject'), (1, 'getsize', 'C_GetObjectSize'), (2, 'getattr', 'C_GetAttributeValue'),
+            (3, 'setattr', 'C_SetAttributeValue'), (4, 'copy', 'C_CopyObject'), (5, 'digestkey', 'C_DigestKey')]
+C01_OBJ = [Ob('obj_' + n, 'C01/obj_entry.cpp', ENTRY_REAL_NOP11, defines={'OP': op}, unwind=18, stubs=STORE_STUBS, caps='common/entry_caps.h',
+              desc='%s on an arbitrary object from an arbitrary session/login state: private object and user not logged in => refused, no sink reached, outputs untouched; token object and RO session => no modification; object-level gates' % fn,
+              bounds='template <= 2 entries, values <= 8 bytes; one object with the full symbolic attribute table of entry_env.h')
+           for (op, n, fn) in _c01_ops]
+OBLIGATIONS['C01'] = C01_OBJ + OBLIGATIONS['C07']
+META['C01'] = dict(outside='templates longer than the bound; the bodies behind the sinks (C02/C07/C08/C12/C13)', assumptions=['C_GetObjectSize: no handle of a private object exists while the user is not logged in (purge invariant proved by C11 hm_tokenLoggedOut)'])
